@@ -50,7 +50,9 @@ func newXGen(r *fw.Rand) *xgen {
 }
 
 var xNumLits = []string{"0", "1", "2", "3", "10", "0.5", "1.50", "007", "2147483647", "2147483648", "99999999999999999999", "0.000001",
-	"12345678901234567890.123456789", "100", "7", "00", "0.0", "1.0", "10.10", "000.5", "1000000", "0.10", "23", "4"}
+	"12345678901234567890.123456789", "100", "7", "00", "0.0", "1.0", "10.10", "000.5", "1000000", "0.10", "23", "4",
+	// many decimal places: nothing of a literal may be lost in print
+	"0.00000000001", "0.00000000004", "0.123456789012", "3.14159265358979", "1.00000000000000000001", "0.000000000000000000000000000001", "2.5000000000001", "9.99999999999"}
 var xSmallInts = []string{"0", "1", "2", "3", "4", "5", "8", "-1", "-2", "10", "30"}
 var xSmallExponents = []string{"0", "1", "2", "3", "-1", "-2", "0.5", "10", "(1+1)", "zed", "2", "3", "- 1", "(2)"}
 
